@@ -91,7 +91,7 @@ enum Ev {
     Heal,
 }
 
-const MANGLE_KINDS: [&str; 12] = [
+const MANGLE_KINDS: [&str; 13] = [
     "fault.lmsmangle.bitflip_anywhere",
     "fault.lmsmangle.bitflip_q",
     "fault.lmsmangle.bitflip_ots_type",
@@ -104,6 +104,7 @@ const MANGLE_KINDS: [&str; 12] = [
     "fault.lmsmangle.wrong_message",
     "fault.lmsmangle.splice_from_other_signature",
     "fault.lmsmangle.q_out_of_range",
+    "fault.lmsmangle.typecode_of_another_parameter_set",
 ];
 
 fn mangle_sig(t: &mut Tape, rng: &mut SimRng, prm: &rl::Params, sig: &[u8], msg: &[u8], others: &[(Vec<u8>, Vec<u8>)]) -> (Vec<u8>, Vec<u8>, &'static str) {
@@ -115,7 +116,7 @@ fn mangle_sig(t: &mut Tape, rng: &mut SimRng, prm: &rl::Params, sig: &[u8], msg:
     let o_path = o_kt + 4;
     let mut s = sig.to_vec();
     let mut m = msg.to_vec();
-    let mut kind = t.weighted(&[4, 2, 1, 2, 4, 1, 3, 2, 2, 2, 3, 1]);
+    let mut kind = t.weighted(&[4, 2, 1, 2, 4, 1, 3, 2, 2, 2, 3, 1, 2]);
     let flip = |t: &mut Tape, s: &mut Vec<u8>, lo: usize, hi: usize| {
         if hi > lo && hi <= s.len() {
             let i = lo + t.usize(hi - lo);
@@ -183,6 +184,16 @@ fn mangle_sig(t: &mut Tape, rng: &mut SimRng, prm: &rl::Params, sig: &[u8], msg:
                         3 => s[o_c..o_y].copy_from_slice(&o.0[o_c..o_y]),        // its randomizer
                         _ => m = o.1.clone(),                                    // this signature, that message
                     }
+                }
+            }
+            12 => {
+                // a registered typecode of another LMS / LM-OTS parameter set (RFC 8554 and SP 800-208 registries)
+                if t.chance(1, 2) {
+                    let tc = [0x05u32, 0x06, 0x07, 0x0a, 0x0b, 0x0f, 0x10, 0x14, 0x15, 0x18][t.usize(10)];
+                    s[o_kt..o_kt + 4].copy_from_slice(&tc.to_be_bytes());
+                } else {
+                    let tc = [0x01u32, 0x02, 0x03, 0x04, 0x05, 0x08, 0x09, 0x0c, 0x0d, 0x10][t.usize(10)];
+                    s[4..8].copy_from_slice(&tc.to_be_bytes());
                 }
             }
             _ => {
